@@ -437,3 +437,63 @@ def run(repo: Repo, rep: Report, tier: str) -> None:
         missing = [c for c in stmt_classes if c not in acc16 and c != "ImportStmt"]
         rep.check(not missing, "C15-R16", f"DSLTransformer.func_decl: body filter #{i16 + 1} keeps every statement class", f"accepts {sorted(acc16 & set(stmt_classes))}" if not missing else
                   f"{missing} fall through the filter: a `for` loop (or that statement kind) written in a function body is silently left out of the function", fd.loc(t16))
+
+    # ---------------- R17 --------------------------------------------------------------
+    rep.rule("C15-R17", "a re-expanded declaration finds the cell of the earlier expansion: the probe that decides whether a memory of this name was already created asks the "
+             "builder's index under exactly the id the creation node is stored under (IRMemCreate's id format applied to the id the declaration would use) — any other key "
+             "never matches, the second call (or iteration) then reuses the first one's cell and the two expansions share state")
+    lmd = repo.func("MemoryLowerer.lower_mem_decl")
+    cl17 = canon(lmd)
+    mc17 = repo.cls("IRMemCreate").methods["__init__"]
+    fmt17 = None
+    for c in calls_in(mc17.node, "__init__"):
+        if c.args and isinstance(c.args[0], ast.JoinedStr):
+            fmt17 = c.args[0]
+    if fmt17 is None:
+        raise AnalysisError("C15-R17: IRMemCreate does not spell its node id as an f-string")
+    idparam = mc17.params[1] if mc17.params and mc17.params[0] == "self" else mc17.params[0]
+
+    def _flat17(e: ast.AST, subst: dict[str, ast.AST] | None = None) -> list[str]:
+        out: list[str] = []
+        if isinstance(e, ast.JoinedStr):
+            for v in e.values:
+                if isinstance(v, ast.Constant):
+                    out.append(str(v.value))
+                elif isinstance(v, ast.FormattedValue):
+                    out += _flat17(v.value, subst)
+        elif isinstance(e, ast.Constant) and isinstance(e.value, str):
+            out.append(e.value)
+        elif subst and isinstance(e, ast.Name) and e.id in subst:
+            out += _flat17(subst[e.id], None)
+        else:
+            out.append("{" + norm(e) + "}")
+        merged: list[str] = []
+        for p_ in out:
+            if merged and not merged[-1].startswith("{") and not p_.startswith("{"):
+                merged[-1] += p_
+            else:
+                merged.append(p_)
+        return merged
+
+    probes17 = [c for c in calls_in(lmd.node, "get_operation") if c.args]
+    creates17 = [c for c in calls_in(lmd.node, "memory_create") if c.args]
+    if not creates17:
+        raise AnalysisError("C15-R17: lower_mem_decl no longer calls memory_create")
+    n17 = 0
+    for p17 in probes17:
+        iff = None
+        pm17 = __import__("fv.core", fromlist=["parents_map"]).parents_map(lmd.node)
+        cur = p17
+        while cur in pm17 and not isinstance(cur, ast.If):
+            cur = pm17[cur]
+        if not isinstance(cur, ast.If):
+            continue
+        iff = cur
+        # the id the declaration would use: what the create call's id is before the fresh-id arm rewrites it
+        base = cl17.node(creates17[0].args[0], iff)
+        want = _flat17(fmt17, {idparam: base})
+        got = _flat17(cl17.node(p17.args[0], iff))
+        n17 += 1
+        rep.check(want == got, "C15-R17", "lower_mem_decl: the re-declaration probe uses the creation node's id", "".join(got) if want == got else
+                  f"probes `{''.join(got)}`, the node is stored under `{''.join(want)}`: the probe never matches, every expansion after the first shares the first one's cell", lmd.loc(p17))
+    rep.floor("C15-R17", "re-declaration probes in lower_mem_decl", n17, 1)
